@@ -306,6 +306,16 @@ def step (mode : Mode) (st : St) (pre post : List String) : St × Verdict :=
                    | _, _ => false) then
             some ("handler-accepted-unauthorized-signer", s!"raw={ln.raw} h={ln.env.height}")
           -- C15
+          else if mode == .c15 && !probeOnly && stateMoved && code.anteLevel == false &&
+              (match ln.tx with
+               | some tx => tx.msg.basic.isNone && Coins.sumOf tx.fee upokt < getFee ln.world.params tx.msg
+               | none => false) &&
+              !(match ln.tx with
+                | some tx => (match tx.pk with | some k => (match k.shape with | .node _ => true | .leaf => false) | none => false)
+                | none => false) then
+            -- the real DeliverTx executed a transaction whose declared fee is below the fee required by
+            -- the parameters in the dumped pre-state (whatever the ante probe said)
+            some ("fee-below-required", s!"raw={ln.raw} fee={renderCoins fee} required={match ln.tx with | some tx => getFee ln.world.params tx.msg | none => 0}")
           else if mode == .c15 && implRejected && stateMoved then
             some ("ante-reject-moved-funds", s!"raw={ln.raw} code={renderResult code}")
           else if mode == .c15 && !implRejected && !deltaOK preAccts postAccts fc (fun d => Coins.sumOf fee d) denoms then
